@@ -14,6 +14,7 @@ import (
 
 	"hop.computer/hop/common"
 	"hop.computer/hop/keys"
+	"hop.computer/hop/pkg/verifhook"
 )
 
 // UDPLike interface standardizes Reliable channels and UDPConn.
@@ -78,6 +79,7 @@ func (c *Client) Handshake() error {
 			if !c.state.CompareAndSwap(clientStateCreated, clientStateHandshaking) {
 				continue
 			}
+			verifhook.At("transport.Client.Handshake.elected")
 
 			err := c.clientHandshakeLocked()
 			if err != nil {
@@ -88,6 +90,7 @@ func (c *Client) Handshake() error {
 					c.ss = nil
 				}
 			}
+			verifhook.At("transport.Client.Handshake.beforeDone")
 			close(c.handshakeDone)
 
 			// Recheck after completion because Close may have changed the state while the handshake was running.
@@ -212,6 +215,7 @@ func (c *Client) clientHandshakeLocked() error {
 	// we should have a DialContext.
 	c.underlyingConn.SetReadDeadline(time.Time{})
 	c.ss.handle = newHandleForSession(c.underlyingConn, c.ss, c.config.Leaf, c.config.maxBufferedPackets())
+	verifhook.At("transport.Client.Handshake.beforeOpen")
 	c.wg.Add(1)
 	if !c.state.CompareAndSwap(clientStateHandshaking, clientStateOpen) {
 		c.wg.Done()
@@ -626,9 +630,11 @@ func (c *Client) Close() error {
 	}
 
 closing:
+	verifhook.At("transport.Client.Close.elected")
 	// Closing the underlying connection is what guarantees that an in-flight
 	// handshake, read, or write cannot prevent Close from completing.
 	c.closeErr = c.underlyingConn.Close()
+	verifhook.At("transport.Client.Close.connClosed")
 
 	if previous == clientStateHandshaking {
 		<-c.handshakeDone
@@ -638,6 +644,7 @@ closing:
 		_ = c.ss.handle.Close()
 	}
 
+	verifhook.At("transport.Client.Close.beforePublish")
 	c.state.Store(clientStateClosed)
 	close(c.closeDone)
 	return c.closeErr
